@@ -14,8 +14,9 @@ TReset ==
   /\ phase' = "New" /\ pol' = Ev.pol /\ box' = Ev.box /\ max' = Ev.max /\ mn' = Ev.mn
   /\ obj' = [quad |-> Ev.kind = "quad", inact |-> Ev.inact,
               \* no convergence claim for the line search, nor when only a sub-list of the coordinates is optimised
-              \* (block-wise histories: the minimiser of the restricted problem is not the one the driver knows)
-              conv |-> IF Ev.opt = "NewtonBacktrack" \/ ~Ev.full THEN "none"
+              \* (block-wise histories: the minimiser of the restricted problem is not the one the driver knows), nor for a
+              \* meta-optimiser driving the simplex method one step at a time (its init() rebuilds the simplex every time)
+              conv |-> IF Ev.opt = "NewtonBacktrack" \/ ~Ev.cvg THEN "none"
                        ELSE IF Ev.opt \in {"Brent", "GoldenSection"} THEN "x" ELSE "f",
               bnd |-> Ev.opt = "Bfgs"]
   /\ cnt' = 0 /\ steps' = 0 /\ tol' = FALSE /\ s0' = NoRank /\ held' = NoRank /\ pend' = 0 /\ lo' = NoRank /\ touched' = FALSE
